@@ -174,8 +174,11 @@ class DelineateRiver(Family):
 
     def instances(self, tier):
         shapes = [(1, 2), (2, 1), (1, 3), (2, 2), (3, 1)] if tier == 'quick' else SHAPES_Q + [(2, 3), (3, 2)]
-        return [dict(nrows=r, ncols=c, start=u, nval=r * c + 1) for r, c in shapes for u in range(-1, r * c + 1)] + \
-               [dict(nrows=2, ncols=2, start=0, nval=2)]
+        out = [dict(nrows=r, ncols=c, start=u, nval=r * c + 1) for r, c in shapes for u in range(-1, r * c + 1)] + \
+              [dict(nrows=2, ncols=2, start=0, nval=2)]
+        # the same walks on a geo-referenced grid (cell size 0.25, corner (-1, 2)): distances stay in cell units, coordinates are cell centres
+        out += [dict(nrows=r, ncols=c, start=u, nval=r * c + 1, geo=[-1.0, 2.0, 0.25]) for r, c in [(1, 3), (2, 2), (3, 1)] for u in range(r * c)]
+        return out
 
     def cost(self, inst):
         return 3 ** (inst['nrows'] * inst['ncols'])
@@ -185,8 +188,9 @@ class DelineateRiver(Family):
 
     def args(self, inst, I):
         nv = inst['nval']
-        return [Scalar('i64', inst['nrows']), Scalar('i64', inst['ncols']), Scalar('double', 0.0), Scalar('double', 0.0),
-                Scalar('double', 1.0), Buf('flowdircode', 'i64', FLOWDIRCODE), Buf('flowdir', 'i64', I['codes']),
+        xll, yll, csz = inst.get('geo') or [0.0, 0.0, 1.0]
+        return [Scalar('i64', inst['nrows']), Scalar('i64', inst['ncols']), Scalar('double', xll), Scalar('double', yll),
+                Scalar('double', csz), Buf('flowdircode', 'i64', FLOWDIRCODE), Buf('flowdir', 'i64', I['codes']),
                 Scalar('i64', inst['start']), Scalar('i64', nv), Buf('npoints', 'i64', [0], out=True),
                 Buf('idxcells', 'i64', [-1] * nv, out=True), Buf('data', 'double', [0.0] * (5 * nv), out=True)]
 
@@ -207,6 +211,14 @@ class DelineateRiver(Family):
             res.append(('npoints>=%d' % (k + 1), b_implies(alive, npts >= k + 1)))
             res.append(('cell[%d]' % k, b_implies(alive, cells[k] == cur)))
             res.append(('distance[%d]' % k, b_implies(alive, fsame(data[5 * k], dist, self.tol, stol=1e-12))))
+            xll, yll, csz = inst.get('geo') or [0.0, 0.0, 1.0]
+            for u in range(n):
+                isu = b_and(alive, cur == u) if not isinstance(cur, int) else (alive if cur == u else False)
+                if isu is False:
+                    continue
+                col, row = u % c, u // c
+                res.append(('cell-centre-coordinates[%d]' % k, b_implies(isu, b_and(fsame(data[5 * k + 3], xll + csz * (col + 0.5), self.tol, stol=1e-12),
+                                                                                     fsame(data[5 * k + 4], yll + csz * (r - 1 - row + 0.5), self.tol, stol=1e-12)))))
             # next cell
             nxt = -1
             diag = False
